@@ -12,7 +12,7 @@ from .. import calc, rel
 
 LEVEL = "model_checking"
 
-GF_LIMITED = {"polarrect": 1e-4, "rect2site": 2e-5, "tet2": 2e-5}
+GF_LIMITED = {"polarrect": 1e-4, "rect2site": 2e-5, "tet2": 2e-5, "sqpolar": 2e-5}
 
 
 def run(ctx):
@@ -22,7 +22,7 @@ def run(ctx):
                 "dyadic vacancy site energies/prefactors and omega0 barriers; tracer data from maketracerpreene; "
                 "non-trivial = distinct (world, data) with non-uniform vacancy data")
     cases, metas = [], []
-    vw = calc.VACANCY_WORLDS[:8] if quick else calc.VACANCY_WORLDS
+    vw = calc.VACANCY_WORLDS[:8] + [("sqpolar", 1, 1)] if quick else calc.VACANCY_WORLDS
     for name, chem, shell in vw:
         for nth in ((1,) if quick and name not in ("square", "hex2d") else (1, 2)):
             if nth == 2 and name in ("diamond", "hcp", "tet2", "b2", "rect2site", "polarrect") and quick:
